@@ -253,7 +253,11 @@ def run_program(inst, mode):
             res.setdefault("notes", []).append(f"real-only discrepancy not reproduced in single precision: {vals}")
         else:
             res["errors"].append(f"counterexample did not reproduce ({what}); inputs {vals}; program {src[:120]}")
-    if concrete_emits and counters["paths_refused"] and not counters["paths_valid"] and not res["violations"]:
+    incomplete = eng.truncated or res["undecided"] or any(p.kind in ("timeout", "cut") for p in paths)
+    if concrete_emits and counters["paths_refused"] and not counters["paths_valid"] and not res["violations"] and incomplete:
+        # the paths on which a module is emitted were not decided (time limits): the refusals seen may be genuine ones for other constant values
+        res.setdefault("notes", []).append("only refusing paths were decided; the emitting paths are undecided / cut")
+    elif concrete_emits and counters["paths_refused"] and not counters["paths_valid"] and not res["violations"]:
         # the unshimmed compiler emits a module for this program but every symbolic path ended in an exception: the exception is an
         # artefact of the shims / proxies, not a refusal -- nothing can be claimed for this program
         res["errors"].append("the compiler emits a module concretely but the symbolic run only saw exceptions (shim gap): " + str([p.value[1] for p in paths if p.kind == "ok" and p.value[0] == "refused"][:1]))
